@@ -128,6 +128,12 @@ Definition E_NO_ROW : N := 3.
 Definition E_ALPHANUMERIC : N := 4.
 Definition E_NO_COLUMN : N := 5.
 Definition E_DIMENSION_COUNT : N := 6.
+Definition E_RANGE : N := 7.            (* "row / column number out of range" (u32::try_from) *)
+
+(* u64 saturating arithmetic (since the C06 hardening the scanner accumulates in u64 with
+   saturating_add / saturating_mul and converts to u32 at the end) *)
+Definition U64MAX : N := 18446744073709551615.
+Definition sat64 (x : N) : N := N.min x U64MAX.
 
 Record scan_state := { s_row : N; s_col : N; s_pow : N; s_readrow : bool }.
 
@@ -141,18 +147,16 @@ Definition scan_letter (base c : N) (s : scan_state) : outcome scan_state :=
               if s_row s =? 0 then Err E_NO_ROW
               else Ok {| s_row := s_row s; s_col := s_col s; s_pow := 1; s_readrow := false |}
             else Ok s);
-  do t <- mul32 (c - base + 1) (s_pow s1);           (* ((c - b'A') as u32 + 1) * pow *)
-  do col' <- add32 (s_col s1) t;                     (* col += …  *)
-  do pow' <- mul32 (s_pow s1) 26;                    (* pow *= 26 *)
-  Ok {| s_row := s_row s1; s_col := col'; s_pow := pow'; s_readrow := false |}.
+  (* col = col.saturating_add(((c - b'A') as u64 + 1).saturating_mul(pow)); pow = pow.saturating_mul(26) *)
+  Ok {| s_row := s_row s1; s_col := sat64 (s_col s1 + sat64 ((c - base + 1) * s_pow s1));
+        s_pow := sat64 (s_pow s1 * 26); s_readrow := false |}.
 
 Definition scan_char (c : N) (s : scan_state) : outcome scan_state :=
   if is_digit c then
     if s_readrow s then
-      do t <- mul32 (c - ch_0) (s_pow s);            (* ((c - b'0') as u32) * pow *)
-      do row' <- add32 (s_row s) t;                  (* row += … *)
-      do pow' <- mul32 (s_pow s) 10;                 (* pow *= 10 *)
-      Ok {| s_row := row'; s_col := s_col s; s_pow := pow'; s_readrow := true |}
+      (* row = row.saturating_add(((c - b'0') as u64).saturating_mul(pow)); pow = pow.saturating_mul(10) *)
+      Ok {| s_row := sat64 (s_row s + sat64 ((c - ch_0) * s_pow s)); s_col := s_col s;
+            s_pow := sat64 (s_pow s * 10); s_readrow := true |}
     else Err E_NUMERIC_COLUMN
   else if is_upper c then scan_letter ch_A c s
   else if is_lower c then scan_letter ch_a c s
@@ -170,6 +174,8 @@ Definition scan_init : scan_state := {| s_row := 0; s_col := 0; s_pow := 1; s_re
 Definition get_row_and_optional_column (range : list N) : outcome (N * option N) :=
   do s <- scan_loop (rev range) scan_init;
   if s_row s =? 0 then Err E_NO_ROW                              (* row.checked_sub(1).ok_or(..)? *)
+  else if U32MAX <? s_row s - 1 then Err E_RANGE                 (* u32::try_from(row) *)
+  else if negb (s_col s =? 0) && (U32MAX <? s_col s - 1) then Err E_RANGE   (* col.checked_sub(1).map(u32::try_from) *)
   else Ok (s_row s - 1, if s_col s =? 0 then None else Some (s_col s - 1)).
 
 Definition get_row_column (range : list N) : outcome (N * N) :=
@@ -203,10 +209,7 @@ Definition get_dimension (dimension : list N) : outcome ((N * N) * (N * N)) :=
   match parts with
   | [] => Err E_DIMENSION_COUNT
   | [p] => Ok (p, p)
-  | [p0; p1] =>
-      do _rows <- sub32 (fst p1) (fst p0);       (* parts[1].0 - parts[0].0 : u32, panics on underflow *)
-      do _cols <- sub32 (snd p1) (snd p0);
-      Ok (p0, p1)
+  | [p0; p1] => Ok (p0, p1)                      (* rows / columns: saturating_sub, only logged *)
   | _ => Err E_DIMENSION_COUNT
   end.
 
